@@ -278,7 +278,7 @@ func redactCommand(cmd *orderedmap.OrderedMap[string, any], shouldEagerRedact bo
 
 var (
 	planSummaryIndexRe = regexp.MustCompile(`[A-Z][A-Z0-9_]*\s*\{[^}]+\}`)
-	planSummaryKeyRe   = regexp.MustCompile(`[^\s,:{}]+\s*:`)
+	planSummaryKeyRe   = regexp.MustCompile(`[^\s,:{}][^,:{}]*:`)
 )
 
 // redactFieldNamesFromPlanSummary pseudonymises the index key names of every
